@@ -16,7 +16,11 @@ class C15(Prop):
         "GET /nacos/v1/ns/instance/list on every node; one directed scenario in both tiers replaces an instance by another of "
         "the same service back to back through each node (a sync batch with a removal and an update), another has "
         "heart-beating HTTP clients of which one deregisters right after a beat and compares 18 s later (after the owner's "
-        "15 s heartbeat flush); in half of the thorough scenarios a node is killed, a registration is "
+        "15 s heartbeat flush); gRPC clients (nacos_rust_client) hold instances through connections to two nodes, the node of one "
+        "is killed (its instances must be gone from the others after 30 s) and restarted (everybody agrees again); an address "
+        "changes its persistence class by re-registration in both directions and must stay listed; `up` waits until a probe "
+        "instance registered through every node is listed by all nodes (complete naming views), the lists are collected until "
+        "the live nodes agree, for at most 8 s; in half of the thorough scenarios a node is killed, a registration is "
         "made meanwhile, the node is restarted and the lists are compared again. Oracle: every live node returns the same "
         "instances (address, health, enabled, weight) and they are the registered ones. non-trivial = contains a comparison"))]
     trusted_base = [
